@@ -1001,3 +1001,15 @@ impl TypeParser {
 /// A cache structure for types.
 /// Every type identified by its `TypeId` and DWARF unit uuid.
 pub type TypeCache = HashMap<(Uuid, TypeId), Rc<ComplexType>>;
+
+#[cfg(feature = "verif")]
+impl ComplexType {
+    /// Verification hook: a type graph that consists of one declaration.
+    pub fn verif_single(decl: TypeDeclaration) -> Self {
+        let root = DieAddr::Unit(gimli::UnitOffset(0));
+        ComplexType {
+            types: HashMap::from([(root, decl)]),
+            root,
+        }
+    }
+}
